@@ -9,12 +9,39 @@ THEOREMS = {
         "Dawgs.C19.Props.resume_complete_or_refuse",
         "Dawgs.C19.Props.resume_completes_from_clean",
         "Dawgs.C19.Props.window_publish_before_record",
+        "Dawgs.C19.Props.identity_binds_every_field",
         "Dawgs.C19.Props.resume_refuses_on_identity_change",
+        "Dawgs.C19.Props.resume_ignores_exempt_fields",
         "Dawgs.C19.Props.resume_refuses_on_source_count_change",
         "Dawgs.C19.Props.resume_refuses_on_unexpected_file",
         "Dawgs.C19.Props.c19_full",
     ],
+    # T-tie: side conditions over the fact table regenerated from retriever/*.go (tools/extract/c19)
+    "Dawgs.Props.C19Identity": [
+        "Dawgs.C19.Props.every_option_bound",
+        "Dawgs.C19.Props.exempt_fields_unbound",
+        "Dawgs.C19.Props.option_binding_as_modelled",
+        "Dawgs.C19.Props.every_param_bound",
+        "Dawgs.C19.Props.identity_fields_modelled",
+        "Dawgs.C19.Props.config_digest_covers",
+        "Dawgs.C19.Props.salt_digest_order",
+        "Dawgs.C19.Props.whole_identity_compared",
+    ],
 }
+
+GENERATED = os.path.join(verif.LEAN, "Dawgs", "Generated", "C19_identity.lean")
+
+
+def regen(ctx):
+    """T-tie: delete and regenerate the identity fact table from the current source of retriever/*.go."""
+    try:
+        os.remove(GENERATED)
+    except FileNotFoundError:
+        pass
+    rc, out = verif.sh(["go", "run", ".", verif.REPO, GENERATED], cwd=os.path.join(verif.VERIF, "tools", "extract", "c19"),
+                       env=verif.GOENV, timeout=600)
+    if rc != 0 or not os.path.exists(GENERATED):
+        raise RuntimeError("c19 extractor failed: " + out[-800:])
 
 HOOK_PATCH = os.path.join(verif.VERIF, "hooks", "C19.patch")
 
@@ -116,9 +143,10 @@ SPEC = {
     "id": "C19",
     "title": "an interrupted dump resumes to the same result or refuses; never a partial dump",
     "level": "proof",
-    "lean_modules": ["Dawgs.Props.C19"],
+    "lean_modules": ["Dawgs.Props.C19", "Dawgs.Props.C19Identity"],
+    "regen": regen,
     "theorems_by_module": THEOREMS,
-    "gate_modules": ["Dawgs.Model.C19", "Dawgs.Spec.C19", "Dawgs.Proofs.C19", "Dawgs.Props.C19"],
+    "gate_modules": ["Dawgs.Model.C19", "Dawgs.Spec.C19", "Dawgs.Proofs.C19", "Dawgs.Props.C19", "Dawgs.Props.C19Identity"],
     "suites": [
         {"name": "c19", "model_suite": "c19", "monitor_suite": None, "keep_prefix": 2, "thorough_seeds": 2, "shrink_budget": 200},
         {"name": "obs19", "model_suite": None, "monitor_suite": "c19mon", "keep_prefix": 2, "thorough_seeds": 2, "shrink_budget": 200},
@@ -129,7 +157,11 @@ SPEC = {
     "rule": "per generated small database x codec x batch x shard four cases: (1) EVERY crash point of the real Dump (verif hook, panic at the k-th "
             "file-system step) followed by resume and comparison with an uninterrupted dump; (2) repeated crashes (crash, resume crashing again "
             "twice, torn temp files, clean resume); (3) DB read errors at every fetch, immediately and after m records, with resume (also faulty); "
-            "(4) refusals: changed shard/batch/codec, stray files, corrupted or removed committed fragment, changed source. Suite c19 compares the "
+            "(4) refusals: changed shard/batch/codec, stray files, corrupted or removed committed fragment, changed source; (5) identity, with "
+            "scrubbing off and on: interrupt, change exactly ONE field of the call (shard, batch, compression, zstd level, driver name, targets / "
+            "their order, scrub mode, scrub salt, each leaf of the scrub configuration) -> must refuse, restore -> must complete to the "
+            "uninterrupted result; exempt fields (progress interval, progress callback; the output directory differs on every op) and, without "
+            "scrubbing, salt and scrub configuration -> must complete. Suite c19 compares the "
             "directory after every step with the Lean model's applyOps (take k ops); suite obs19 feeds names, sizes and sha256 of every file to the "
             "Lean monitor. A case is non-trivial when it has an interruption inside the fragment/checkpoint protocol, a completed resume and a "
             "refused resume; distinct = distinct op-line sequences (sha1)",
@@ -137,13 +169,20 @@ SPEC = {
                           "crashed.fragment.record.written", "resume.ok", "resume.refused.unexpected-file", "resume.refused.identity-changed",
                           "resume.refused.source-changed", "resume.refused.checksum", "resume.refused.fragment-missing",
                           "resume.refused.manifest-present", "resume.refused.no-checkpoint", "resume.crashed.resume.temp.removed",
-                          "dump.err.db-read", "resume.err.db-read", "torn_temps"],
+                          "dump.err.db-read", "resume.err.db-read", "torn_temps", "set.salt", "set.rules", "set.scrub", "set.driver",
+                          "set.targets", "set.zstdlevel", "set.progress", "set.progresscb"],
     "trusted_base": ["file system: atomic rename, a crash loses no completed step (process crash, not power loss: the code never fsyncs)",
                      "SHA-256 idealised as collision free (the model compares recorded content)",
                      "verif-tagged crash hook retriever.VerifCrashHook / verifCrashPoint (hooks/C19.patch, add-only; applied through go build -overlay "
                      "until it is committed to the repository)",
-                     "harness/fakedb.go in-memory graph.Database"],
-    "assumptions": ["source database unchanged between interruption and resume unless the case says otherwise",
+                     "harness/fakedb.go in-memory graph.Database",
+                     "tools/extract/c19 (go/ast fact extractor of the option / identity / scrub-configuration fields and of the salt-digest "
+                     "order, purely syntactic; its behavioural consequence is cross-checked by the one-field-changed resume cases)"],
+    "assumptions": ["option fields deliberately NOT part of the resume identity: OutputDir (the directory IS the dump being resumed), Force and "
+                    "Resume (how the call is made; mutually exclusive), ProgressInterval and Progress (reporting only) - none influences a byte of the "
+                    "output; the harness requires a resume to COMPLETE when only they change (Props/C19Identity.exempt_fields_unbound)",
+                    "Salt and ScrubConfig bind a resume only when the interrupted dump was scrubbing (Scrub=none ignores them)",
+                    "source database unchanged between interruption and resume unless the case says otherwise",
                     "power loss / missing fsync is out of scope (stated in Model/C19.lean)",
                     "in-process abort (panic + recover): Dump has no deferred cleanup, so the directory equals that of a killed process"],
 }
